@@ -23,7 +23,24 @@ func init() {
 }
 
 func runC18(c *Check) {
+	LostReceiverStores(c, "C18.CFG", "components/requestreply", "components/cqrs")
+	DefaultsApplied(c, "C18.CFG", "components/requestreply", "components/cqrs")
 	P := "C18"
+	// the request-reply handler finds the command message through the context the command processor sets on it
+	for _, fn := range c.P.SrcFuncs("components/cqrs") {
+		rs := fn.Signature.Results()
+		recv := fn.Signature.Recv()
+		if fn.Parent() != nil || recv == nil || rs.Len() != 2 || rs.At(0).Type().String() != msgPkg+".NoPublishHandlerFunc" || NamedOf(recv.Type()) == nil || NamedOf(recv.Type()).Obj().Name() != "CommandProcessor" {
+			continue
+		}
+		for _, r := range Returns(fn) {
+			for _, o := range RetOrigins(r, 0) {
+				if f := FuncOfValue(o); f != nil && f.Parent() == fn && len(ParamsOfType(f, tMessagePtr)) == 1 {
+					c15OriginalMessageCtx(c, P+".O3", f, "command")
+				}
+			}
+		}
+	}
 	B := c.P.Named(rrRel, "PubSubBackend")
 	if !c.Floor(P, "type requestreply.PubSubBackend", b2i(B != nil), 1) {
 		return
